@@ -46,7 +46,7 @@ FANS = ["auto", "quiet", "low", "medium", "high", "powerful", "turbo"]
 def _abstract_ac_state(rng):
     return {"power": rng.choice(["off", "on"]), "mode": rng.choice(MODES + ["auto_heat", "auto_cool"]), "fan": rng.choice(FANS),
             "setpoint": rng.randint(14, 32), "temp": (rng.randint(400, 900) - 500) / 10, "spill": rng.random() < 0.3, "timer": rng.random() < 0.3,
-            "error": rng.choice([0, 0, 0, 7])}
+            "error": rng.choice([0, 0, 0, 7, 7, 9])}
 
 
 def _abstract_zone_state(rng):
@@ -95,7 +95,7 @@ def generate(rng, index: int, tier: str) -> dict:
         a5 = {"ac": i, "name": name, "modes": modes, "fans": fans, "min_cool": lo, "max_cool": hi, "min_heat": lo, "max_heat": hi,
               "start_zone": bounds[i], "zone_count": len(rng_z), "state": _to5_ac(st), "timer": copy.deepcopy(tm)}
         if st["error"]:
-            a4["errtext"] = a5["errtext"] = "E7"
+            a4["errtext"] = a5["errtext"] = "E%d" % st["error"]
         acs4.append(a4)
         acs5.append(a5)
     z4, z5 = [], []
@@ -121,6 +121,10 @@ def generate(rng, index: int, tier: str) -> dict:
                 full = _abstract_ac_state(rng)
                 keys = rng.sample(sorted(full), rng.randint(1, 4))
                 f = {x: full[x] for x in keys}
+                if "error" in keys:
+                    # the console describes the error it currently reports (asked for by the client, not pushed)
+                    for tl in (tl4, tl5):
+                        tl.append({"at": t, "op": "console.errtext", "ac": ac, "text": ("E%d" % full["error"]) if full["error"] else None, "publish": False})
                 tl4.append({"at": t, "op": "console.set", "entity": ["ac", ac], "fields": {x: _to4_ac(full)[x] for x in keys}})
                 tl5.append({"at": t, "op": "console.set", "entity": ["ac", ac], "fields": {x: _to5_ac(full)[x] for x in keys}})
                 del f
